@@ -356,3 +356,13 @@ CHECKS["C10"] = {
          "checks_quick": 8, "checks_thorough": 200, "shards_quick": 8, "shards_thorough": 16, "timeout_quick": 400, "timeout_thorough": 2400},
     ],
 }
+
+# thorough-only native fuzz campaigns (coverage guided, cannot be seeded; hitting the time budget means "nothing found")
+CHECKS["C11"]["parts"].append(
+    {"name": "fuzz", "pkg": KV, "test": "FuzzVerifC11", "kind": "fuzz", "build_flags": ["-fuzz=FuzzVerifC11"], "thorough_only": True,
+     "shards_thorough": 1, "fuzztime_thorough": "150s", "fuzz_workers": 12, "timeout_thorough": 900})
+CHECKS["C11"]["rule"] += " Thorough adds a native go-fuzz campaign over an operation tape (same oracle inside the target); its count of non-trivial cases is the number of inputs that reached new coverage."
+CHECKS["C16"]["parts"].append(
+    {"name": "fuzz", "pkg": ROOT, "test": "FuzzVerifC16", "kind": "fuzz", "build_flags": ["-fuzz=FuzzVerifC16"], "thorough_only": True,
+     "shards_thorough": 1, "fuzztime_thorough": "150s", "fuzz_workers": 12, "timeout_thorough": 900})
+CHECKS["C16"]["rule"] += "; thorough adds a native go-fuzz campaign that decodes bytes into argument vectors (non-trivial there = inputs that reached new coverage)"
